@@ -252,7 +252,16 @@ func genStress(r *rand.Rand, i int, thorough bool) (hx.T, []string) {
 	// mode, then the overflow amounts [local, global, post, timer, session messages, requests]
 	// ... and the rounds of boundary work (timers already due, work produced from inside handlers)
 	// ... and the number of further actors spawned from the same props
-	cfg = append(cfg, 0, 0, 0, 0, 0, 0, 0, pick(1, 12), 0)
+	// ... whether the event centre is in direct mode, and the teardown variant
+	cfg = append(cfg, 0, 0, 0, 0, 0, 0, 0, pick(1, 12), 0, 0, 0)
+	if i%3 == 1 {
+		cfg[23] = 1
+		tags = append(tags, "direct-mode")
+	}
+	if i%4 == 1 {
+		cfg[24] = int64(1 + i/4%2)
+		tags = append(tags, fmt.Sprintf("teardown-%d", cfg[24]))
+	}
 	tags = append(tags, "edge")
 	over := func(lo, hi int) int64 { return 999 + pick(lo, hi) } // queues hold 999
 	switch i % 8 {
